@@ -116,6 +116,7 @@ theorem isequal_refl (a : Val) (h : WF a) : isequal a a = .val true := by
   | idx l => simp only [isequal]; rw [isequalIdx_eq_spec]; simp [specIdx]
   | nd s d => simp only [isequal]; exact isequalNd_refl s d h.1 h.2
   | nothing => simp [isequal]
+  | lit => exact absurd h (by simp [WF])
   | just v ih => simp only [isequal]; exact ih h
   | left v ih => simp only [isequal]; exact ih h
   | right v ih => simp only [isequal]; exact ih h
@@ -134,7 +135,8 @@ theorem nd_ne_oob (s1 d1 s2 d2) (h1 : d1.length = prod s1 ∧ Pos s1) (h2 : d2.l
 theorem isequal_never_oob (a b : Val) (ha : WF a) (hb : WF b) : isequal a b ≠ .oob := by
   fun_induction isequal a b <;> simp_all [WF, isequalIdx_eq_spec, nd_ne_oob, and_ne_oob]
 
-theorem sameConcept_comm (a b : Val) : sameConcept a b = sameConcept b a := by cases a <;> cases b <;> rfl
+theorem sameConcept0_comm (a b : Val) : sameConcept0 a b = sameConcept0 b a := by cases a <;> cases b <;> rfl
+theorem sameConcept_comm (a b : Val) : sameConcept a b = sameConcept b a := by unfold sameConcept; exact sameConcept0_comm _ _
 
 /-- SYMMETRIC on every accepted pairing (optionals, eithers, tuples, arrays, index arrays, numbers) -/
 theorem isequal_symm (a b : Val) (ha : WF a) (hb : WF b) : isequal a b = isequal b a := by
@@ -160,6 +162,155 @@ theorem iscloseNd_eq_spec (eps : Int) (s1 : Shape) (d1 : List Int) (s2 : Shape) 
 theorem iscloseNd_diff_shape (eps : Int) (s1 : Shape) (d1 : List Int) (s2 : Shape) (d2 : List Int) (h : s1 ≠ s2) :
     iscloseNd eps s1 d1 s2 d2 = .val false := by
   unfold iscloseNd; simp [h]
+
+/-! ### the bare `meta::Nothing` literal (public dispatcher, utility/isequal.hpp:492-497; seeded change C18-4) -/
+
+/-- the literal against an optional: equal exactly to the EMPTY optional, in BOTH operand orders; literal vs literal is
+    not part of the API (the fail type is returned) -/
+theorem isequal_lit_cases (a : Val) :
+    isequal .lit .nothing = .val true ∧ isequal .nothing .lit = .val true ∧
+    isequal .lit (.just a) = .val false ∧ isequal (.just a) .lit = .val false ∧ isequal .lit .lit = .notAccepted := by
+  simp [isequal]
+
+/-- symmetric with the literal on either side, whatever the other operand is -/
+theorem isequal_lit_symm (a : Val) : isequal .lit a = isequal a .lit := by
+  cases a <;> simp [isequal]
+
+/-- SYMMETRIC on every pairing of value operands and the literal -/
+theorem isequal_symm_ext (a b : Val) (ha : WF a ∨ a = .lit) (hb : WF b ∨ b = .lit) : isequal a b = isequal b a := by
+  rcases ha with ha | rfl
+  · rcases hb with hb | rfl
+    · exact isequal_symm a b ha hb
+    · exact (isequal_lit_symm a).symm
+  · exact isequal_lit_symm b
+
+example : isequal .lit (.just (.nd [2] [1,2])) = .val false ∧ isequal .lit .nothing = isequal .nothing .lit := by
+  simp [isequal]
+example : WF (.just (.left (.num 3))) ∨ (.just (.left (.num 3)) : Val) = .lit := Or.inl (by simp [WF])
+
+/-- the concept of an either alternative is taken through optionals: either<maybe<num>,·> holding 3 equals the number 3 -/
+example : isequal (.left (.just (.num 3))) (.num 3) = .val true ∧ isequal (.num 3) (.left (.just (.num 3))) = .val true := by
+  simp [isequal, sameConcept, sameConcept0, unwrapJ]
+
+/-! ### isclose over the operand grammar -/
+
+theorem isclose_maybe_cases (eps : Int) (a b : Val) :
+    isclose eps .nothing .nothing = .val true ∧ isclose eps .nothing (.just a) = .val false ∧
+    isclose eps (.just a) .nothing = .val false ∧ isclose eps (.just a) (.just b) = isclose eps a b := by
+  simp [isclose]
+
+theorem isclose_either_cases (eps : Int) (a b : Val) :
+    isclose eps (.left a) (.left b) = isclose eps a b ∧ isclose eps (.right a) (.right b) = isclose eps a b ∧
+    isclose eps (.left a) (.right b) = .val false ∧ isclose eps (.right a) (.left b) = .val false := by
+  simp [isclose]
+
+theorem isclose_tuple_cases (eps : Int) (a b as bs : Val) :
+    isclose eps (.pair a as) (.pair b bs) = (isclose eps a b).and (isclose eps as bs) ∧ isclose eps .unit .unit = .val true := by
+  simp [isclose]
+
+theorem zipWith_close_symm (eps : Int) (d1 d2 : List Int) :
+    List.zipWith (fun x y => decide ((x - y).natAbs < eps)) d1 d2 = List.zipWith (fun x y => decide ((x - y).natAbs < eps)) d2 d1 := by
+  induction d1 generalizing d2 with
+  | nil => cases d2 <;> rfl
+  | cons x xs ih =>
+    cases d2 with
+    | nil => rfl
+    | cons y ys =>
+      simp only [List.zipWith_cons_cons, ih ys]
+      have : (x - y).natAbs = (y - x).natAbs := by omega
+      rw [this]
+
+theorem specCloseNd_symm (eps : Int) (s1 d1 s2 d2) : specCloseNd eps s1 d1 s2 d2 = specCloseNd eps s2 d2 s1 d1 := by
+  unfold specCloseNd
+  rw [zipWith_close_symm eps d1 d2]
+  by_cases h : s1 = s2 <;> simp [h, eq_comm]
+
+theorem iscloseNd_symm (eps : Int) (s1 : Shape) (d1 : List Int) (s2 : Shape) (d2 : List Int)
+    (h1 : d1.length = prod s1) (p1 : Pos s1) (h2 : d2.length = prod s2) (p2 : Pos s2) :
+    iscloseNd eps s1 d1 s2 d2 = iscloseNd eps s2 d2 s1 d1 := by
+  rw [iscloseNd_eq_spec eps s1 d1 s2 d2 h1 p1 h2 p2, iscloseNd_eq_spec eps s2 d2 s1 d1 h2 p2 h1 p1, specCloseNd_symm]
+
+/-- isclose is SYMMETRIC on every accepted pairing (the dropped tolerance of the either-vs-plain branches is dropped in
+    both orders, so even the defective branches are symmetric) -/
+theorem isclose_symm (eps : Int) (a b : Val) (ha : WF a) (hb : WF b) : isclose eps a b = isclose eps b a := by
+  fun_induction isclose eps a b <;> (try cases ‹Val›) <;> simp_all [isclose, WF, sameConcept_comm]
+  · congr 2; omega
+  · exact iscloseNd_symm _ _ _ _ _ ha.1 ha.2 hb.1 hb.2
+
+theorem zipWith_close_refl (eps : Int) (h : 0 < eps) (d : List Int) :
+    (List.zipWith (fun x y => decide ((x - y).natAbs < eps)) d d).all id = true := by
+  induction d with
+  | nil => rfl
+  | cons x xs ih =>
+    simp only [List.zipWith_cons_cons, List.all_cons, ih, Bool.and_true, id]
+    have : (x - x).natAbs = 0 := by omega
+    simp [this, h]
+
+theorem and_accepted {x y : Res} (h : x.and y ≠ .notAccepted) : x ≠ .notAccepted ∧ y ≠ .notAccepted := by
+  cases x <;> cases y <;> simp_all [Res.and]
+
+/-- isclose is REFLEXIVE for every positive tolerance, on every operand the function accepts (index arrays are compared
+    as 1-d ndarrays by isclose: they are `.nd` operands here) -/
+theorem isclose_refl (eps : Int) (h : 0 < eps) (a : Val) (ha : WF a) (hacc : isclose eps a a ≠ .notAccepted) :
+    isclose eps a a = .val true := by
+  induction a with
+  | num n => simp [isclose, h]
+  | idx l => exact absurd hacc (by simp [isclose])
+  | nd s d =>
+    simp only [isclose]; rw [iscloseNd_eq_spec eps s d s d ha.1 ha.2 ha.1 ha.2]
+    simp only [specCloseNd, decide_true, Bool.true_and, zipWith_close_refl eps h d]
+  | nothing => simp [isclose]
+  | lit => exact absurd ha (by simp [WF])
+  | just v ih => simp only [isclose] at hacc ⊢; exact ih ha hacc
+  | left v ih => simp only [isclose] at hacc ⊢; exact ih ha hacc
+  | right v ih => simp only [isclose] at hacc ⊢; exact ih ha hacc
+  | unit => simp [isclose]
+  | pair a b iha ihb =>
+    simp only [isclose] at hacc ⊢
+    have := and_accepted hacc
+    rw [iha ha.1 this.1, ihb ha.2 this.2]; rfl
+
+example : WF (.pair (.num 3) (.pair (.just (.nd [2] [3,4])) .unit)) ∧
+    isclose 8 (.pair (.num 3) (.pair (.just (.nd [2] [3,4])) .unit)) (.pair (.num 3) (.pair (.just (.nd [2] [3,4])) .unit)) ≠ .notAccepted := by
+  refine ⟨⟨trivial, ⟨by decide, by decide⟩, trivial⟩, ?_⟩
+  simp only [isclose]
+  rw [iscloseNd_eq_spec _ _ _ _ _ (by decide) (by decide) (by decide) (by decide)]
+  simp [Res.and]
+
+theorem closeNd_ne_oob (eps : Int) (s1 d1 s2 d2) (h1 : d1.length = prod s1 ∧ Pos s1) (h2 : d2.length = prod s2 ∧ Pos s2) :
+    iscloseNd eps s1 d1 s2 d2 ≠ .oob := by
+  rw [iscloseNd_eq_spec eps s1 d1 s2 d2 h1.1 h1.2 h2.1 h2.2]; simp
+
+/-- TOTAL: isclose never reads outside an operand, for every pairing and every shapes -/
+theorem isclose_never_oob (eps : Int) (a b : Val) (ha : WF a) (hb : WF b) : isclose eps a b ≠ .oob := by
+  fun_induction isclose eps a b <;> simp_all [WF, closeNd_ne_oob, and_ne_oob]
+
+/-- with the caller's tolerance used everywhere (the reference), and in particular whenever no either-vs-plain branch is
+    taken, the code IS the reference: alternative-by-alternative, shapes equal, every element difference below eps -/
+theorem isclose_eq_ref (eps : Int) (a b : Val) (ha : WF a) (hb : WF b) (hm : mixedEither a b = false) :
+    isclose eps a b = iscloseRef eps a b := by
+  fun_induction isclose eps a b <;> simp_all [iscloseRef, mixedEither, WF]
+  · exact iscloseNd_eq_spec _ _ _ _ _ ha.1 ha.2 hb.1 hb.2
+
+/-- called WITHOUT a tolerance (default eps) the code is the reference on every pairing -/
+theorem isclose_default_eq_ref (a b : Val) (ha : WF a) (hb : WF b) :
+    isclose defaultEps a b = iscloseRef defaultEps a b := by
+  generalize h : defaultEps = e
+  fun_induction isclose e a b <;> subst h <;> simp_all [iscloseRef, WF]
+  · exact iscloseNd_eq_spec _ _ _ _ _ ha.1 ha.2 hb.1 hb.2
+
+/-- GENUINE DEFECT (finding isclose.either-plain-eps): an either against a plain value ignores the caller's tolerance:
+    |3 - 5| < 8, yet isclose(either{3}, 5, 8) is false - in both operand orders -/
+theorem isclose_either_plain_counterexample :
+    isclose 8 (.left (.num 3)) (.num 5) = .val false ∧ isclose 8 (.num 5) (.left (.num 3)) = .val false ∧
+    iscloseRef 8 (.left (.num 3)) (.num 5) = .val true ∧ mixedEither (.left (.num 3)) (.num 5) = true := by
+  simp [isclose, iscloseRef, mixedEither, sameConcept, sameConcept0, unwrapJ, defaultEps]
+
+example : WF (.just (.right (.nd [2] [3,4]))) ∧ WF (.right (.nd [2] [5,5])) ∧
+    mixedEither (.just (.right (.nd [2] [3,4]))) (.right (.nd [2] [5,5])) = false := by
+  refine ⟨⟨by decide, by decide⟩, ⟨by decide, by decide⟩, by simp [mixedEither]⟩
+example : iscloseRef 8 (.just (.right (.nd [2] [3,4]))) (.right (.nd [2] [5,5])) = .val true := by
+  simp [iscloseRef, specCloseNd]
 
 /-! non-vacuity and the behaviours the property singles out -/
 example : WF (.nd [2,3] [0,1,2,3,4,5]) ∧ WF (.nd [3,2] [0,1,2,3,4,5]) := by
